@@ -122,7 +122,10 @@ impl Vm {
             // The VPushAcc opcode represents a primitive instruction for pushing an an element in
             // %acc on to the vector at the top of the stack.
             OpCode::VPushAcc => {
-                let vector_ptr = self.stack.pop()?.clone();
+                let vector_ptr = match self.stack.pop()?.clone() {
+                    VCell::Undefined => self.heap.put(VCell::vector(vec![])),
+                    vector_ptr => vector_ptr,
+                };
                 let vector = self.heap.get(&vector_ptr);
                 vector.as_vector()?.push(self.acc.clone());
                 self.acc = vector_ptr;
